@@ -40,7 +40,9 @@ def sort_family():
             "group k (take 1)", "derive {r = k + 1} | take 2 | filter r > 1", "aggregate {n = count this}", "append (from x) | take 3",
             "select {k}", "take 4 | sort {-k} | take 2", "group k (sort a | take 1) | take 3", "join side:left u (==k) | sort {u.c} | take 2",
             "take 5 | join u (==k) | take 2", "group k (take 1) | take 2", "select {k} | group k (take 1) | derive {r = k + 1} | filter r > 1",
-            "group this (take 1) | join u (==k)"]
+            "group this (take 1) | join u (==k)",
+            # a re-sort whose stand-alone Sort the flattener drops (a group follows): only the take carries it
+            "sort {-k} | take 2 | group k (aggregate {n = count this})", "filter k > 0 | sort {-k} | take 3 | group k (take 1)"]
     n = 0
     for s in sorts:
         for p in projs:
